@@ -13,8 +13,10 @@ Decided, each a necessary condition of the property:
  (d) the pending extent left when the input is exhausted is pushed;
  (e) next_sparse_segments returns offsets that come only from SEEK_DATA/SEEK_HOLE answers or the file length,
      and the hole search starts at the data offset just found.
+ (f) merging never shrinks the pending extent (merge_guard): the test leading to `end: e.end` bounds e.start from
+     below by p.end, or the end is max(p.end, e.end).
 Not decided: that the kernel's extents are ordered and non-overlapping, that bytes outside them read as zero,
-the adjacency test (`p.end + 1`, arithmetic), FIEMAP paging termination.
+whether `p.end + 1` is the right adjacency constant, FIEMAP paging termination.
 """
 from cfg import cfg_of, defuse, Prov, op_local, op_place, place_fields, callee_orig
 from engine import Ob, mkkey, anchor_ob
